@@ -105,7 +105,7 @@ impl FdGen {
 pub fn scenario(r: &mut Rng) -> (usize, usize, Vec<PG>) {
     let v = |k: usize| T::Var(k);
     let n = |k: isize| T::Num(k);
-    match r.below(3) {
+    match r.below(4) {
         0 => {
             // ALIASED OPERANDS (C04-k): a constraint posted on a, b; then a == x, b == y move the domains to x, y (either
             // orientation); then x / y are narrowed to one value by PROPAGATION — the constraint on the old names must wake up
@@ -165,6 +165,38 @@ pub fn scenario(r: &mut Rng) -> (usize, usize, Vec<PG>) {
             }
             body.push(PG::DistinctFd(T::list(items)));
             (2, 2, body)
+        }
+        2 => {
+            // ONE UNIFICATION BINDING SEVERAL DOMAIN VARIABLES (C09-k): every binding of the extension must go through its
+            // domain, whichever the hash order puts first
+            let nv = 2 + r.below(2);
+            let mut body: Vec<PG> = (0..nv).map(|k| PG::InFd(v(k), D::I(r.range(0, 2) as isize, r.range(2, 4) as isize))).collect();
+            // the extra variable has a domain too (before or after the unification)
+            let extra = PG::InFd(v(nv), D::I(0, 5));
+            let extra_first = r.chance(1, 2);
+            if extra_first {
+                body.push(extra.clone());
+            }
+            let lhs = T::list((0..nv).map(v).collect());
+            let rhs = match r.below(3) {
+                // all onto one fresh variable (the query variable nv): the domains intersect
+                0 => T::list((0..nv).map(|_| v(nv)).collect()),
+                // onto numbers, some outside the domains
+                1 => T::list((0..nv).map(|_| n(r.range(0, 5) as isize)).collect()),
+                // a mix
+                _ => T::list((0..nv).map(|k| if r.chance(1, 2) { v(nv) } else if r.chance(1, 2) { n(r.range(0, 4) as isize) } else { v((k + 1) % nv) }).collect()),
+            };
+            body.push(if r.chance(1, 2) { PG::Eq(lhs, rhs) } else { PG::Eq(rhs, lhs) });
+            if !extra_first {
+                body.push(extra);
+            }
+            if r.chance(1, 3) {
+                body.push(PG::LteFd(v(0), v(1)));
+            }
+            // the query: the extra variable first, then the domain variables
+            let shift = |t: &T| t.subst(&|x| match x { T::Var(k) => Some(T::Var(if *k == nv { 0 } else { k + 1 })), _ => None });
+            let body: Vec<PG> = body.iter().map(|g| crate::c16::shift_goal(g, &shift)).collect();
+            (nv + 1, nv + 1, body)
         }
         _ => {
             // HIDDEN PRODUCT (C17-k): two FD variables that are not part of the query, tied by a product over mixed signs —
